@@ -64,6 +64,7 @@ class Importer:
         for row in reader:
             if len(row) <= 0:
                 # Found an empty row, usually the last one. Ignore it.
+                self._row_number = self._row_number + 1
                 continue
 
             self._tree_stage = self._tree_stage + 1
